@@ -189,7 +189,8 @@ pub fn run_case(case: &Case, files: &[Vec<u8>]) -> Result<usize, String> {
         check_calls(&calls, &want_calls)?;
         // 2. write_into_stream_writer + read back
         let mf2 = Recording { mode: case.mf, calls: RefCell::new(Vec::new()) };
-        let mut b = Merger::builder(&mf2);
+        // the other way to obtain a builder
+        let mut b = grenad::MergerBuilder::new(&mf2);
         b.extend(cursors(case, files)?);
         let mut w = writer_builder(&FileCfg::layout(Some(1024), Some(2), 1)).memory();
         b.build().write_into_stream_writer(&mut w).map_err(|e| format!("write_into_stream_writer: {e}"))?;
